@@ -196,12 +196,24 @@ func ToItemCollection(it Item) (*ItemCollection, error) {
 	case ItemCollection:
 		return &i, nil
 	case *OrderedCollection:
+		if i == nil {
+			return nil, nil
+		}
 		return &i.OrderedItems, nil
 	case *OrderedCollectionPage:
+		if i == nil {
+			return nil, nil
+		}
 		return &i.OrderedItems, nil
 	case *Collection:
+		if i == nil {
+			return nil, nil
+		}
 		return &i.Items, nil
 	case *CollectionPage:
+		if i == nil {
+			return nil, nil
+		}
 		return &i.Items, nil
 	case IRIs:
 		iris := make(ItemCollection, len(i))
@@ -210,6 +222,9 @@ func ToItemCollection(it Item) (*ItemCollection, error) {
 		}
 		return &iris, nil
 	case *IRIs:
+		if i == nil {
+			return nil, nil
+		}
 		iris := make(ItemCollection, len(*i))
 		for j, ob := range *i {
 			iris[j] = ob
@@ -232,6 +247,9 @@ func ToIRIs(it Item) (*IRIs, error) {
 		iris := i.IRIs()
 		return &iris, nil
 	case *ItemCollection:
+		if i == nil {
+			return nil, nil
+		}
 		iris := make(IRIs, len(*i))
 		for j, ob := range *i {
 			iris[j] = ob.GetLink()
